@@ -8,7 +8,8 @@ LEVEL = ("Static error discipline on every density evaluation reachable from Cha
          "call / LeapfrogResult / ExtendResult consumer propagates or converts the fault, nothing is unwrapped or swallowed (R1); every "
          "path to LeapfrogResult::Ok passes a gate that a non-finite energy error cannot pass and that compares the energy error with "
          "max_energy_error (R2); recoverable errors become Divergence and unrecoverable ones Err, not the other way round (R3); the init "
-         "gates dominate Ok (R5); the no-U-turn-check options differ from the caller's options only in check_turning (R6). "
+         "gates dominate Ok (R5); the no-U-turn-check options differ from the caller's options only in check_turning (R6); a leapfrog that ended in a fault is still counted exactly once by the acceptance "
+         "collector, so a fault cannot turn the step-size statistic into 0/0 (R7, shared with C07-R7). "
          "Does not decide value statements ('returned position is finite') or two-fault sequences.")
 EXPLANATION = ("ERR classification over MIR def-use for all bodies reachable in the call graph from the Chain entry points; three-valued "
                "evaluation of the branch conditions that control the Ok / Divergence / Err constructions.")
@@ -36,12 +37,12 @@ def chain_scope(F):
     return roots, out
 
 
-def r1(F, R):
-    R.rule("C05-R1", "every consumer of a fault-carrying Result / LeapfrogResult / ExtendResult reachable from Chain::{set_position,draw,expanded_draw} "
+def r1(F, R, rid="C05-R1"):
+    R.rule(rid, "every consumer of a fault-carrying Result / LeapfrogResult / ExtendResult reachable from Chain::{set_position,draw,expanded_draw} "
                      "propagates or converts the fault; unwrap/expect/discard is a violation")
     roots, bodies = chain_scope(F)
     if len(roots) < 6:
-        R.missing("C05-R1", "impl Chain::{set_position,draw,expanded_draw} for both chain types (found %d)" % len(roots))
+        R.missing(rid, "impl Chain::{set_position,draw,expanded_draw} for both chain types (found %d)" % len(roots))
     density_calls = 0
     for b in bodies:
         counts = {}
@@ -61,13 +62,13 @@ def r1(F, R):
             for o in outs:
                 key = "%s:%s#%d:%s" % (b.path, ck, n, o.kind)
                 if o.kind in ("propagated", "returned", "handled", "forwarded", "stored"):
-                    R.ok("C05-R1", key, site, "%s %s -> %s (%s)" % (kind, ck, o.kind, o.detail))
+                    R.ok(rid, key, site, "%s %s -> %s (%s)" % (kind, ck, o.kind, o.detail))
                 else:
-                    R.bad("C05-R1", key, site, "%s on a %s<%s> from %s: %s" % (o.kind, kind, e[:50], c.get("path", "indirect"), o.detail))
-    R.info("C05-R1", "Math::logp_array call sites in scope: %d" % density_calls)
+                    R.bad(rid, key, site, "%s on a %s<%s> from %s: %s" % (o.kind, kind, e[:50], c.get("path", "indirect"), o.detail))
+    R.info(rid, "Math::logp_array call sites in scope: %d" % density_calls)
     if density_calls < 6:
-        R.missing("C05-R1", "Math::logp_array call sites (found %d, floor 6)" % density_calls)
-    R.floor("C05-R1", 40)
+        R.missing(rid, "Math::logp_array call sites (found %d, floor 6)" % density_calls)
+    R.floor(rid, 40)
 
 
 # ---------------------------------------------------------------------------------------------
@@ -363,4 +364,7 @@ def run(F, R, config="all"):
     r3(F, R)
     r5(F, R)
     r6(F, R)
+    # a faulted leapfrog must still be counted by the acceptance collector, otherwise the fault poisons the step-size statistic (0/0)
+    from . import c07
+    c07.r7(F, R, rid="C05-R7")
     R.assume("user-supplied Math implementations may return any error at any call; is_recoverable() is the documented classifier")
